@@ -239,6 +239,107 @@ def scenarios(run, drv, scratch):
         run.notes.append(f"scenario names-through-stack: {type(e).__name__}: {str(e)[:80]}")
     check("scenario", "L = lazy_stack(m1, m2).lock_(); L.names; L.names = ['s', 'q']; L.names", "stack-names-under-lock", lambda: L.names)
 
+    # (e3) only the *stack dimension* of a lazy stack is renamed: the members' names do not change, yet the holders of the stack
+    #      (root of the locked tree; an outer lazy stack) memoised reads that carry the stack's names
+    def members(names=("feat",)):
+        return [TensorDict({"a": torch.zeros(3), "n": TensorDict({"x": torch.zeros(3)}, [3])}, [3], names=list(names) if names else None) for _ in range(2)]
+    all_reads = lambda *ts: [(t.detach(), t.flatten_keys(), t._values_list(True, True), t._items_list(True, True), getattr(t, "names")) for t in ts]
+    root = TensorDict({"l": LazyStackedTensorDict(*members(), stack_dim=0), "z": torch.zeros(2, 3)}, [2, 3]).lock_()
+    all_reads(root, root.get("l"))
+    root.get("l").names = ["time", "feat"]
+    check("scenario", "root = TensorDict({'l': lazy_stack(m1, m2)}).lock_(); root.detach(); root['l'].names = ['time', 'feat']  (members' names unchanged); root.detach()",
+          "stack-dim-name-under-lock:root", lambda: all_reads(root, root.get("l")))
+    outer = LazyStackedTensorDict(LazyStackedTensorDict(*members(), stack_dim=0), LazyStackedTensorDict(*members(), stack_dim=0), stack_dim=0).lock_()
+    all_reads(outer, *outer.tensordicts)
+    for inner in outer.tensordicts:
+        inner.names = ["time", "feat"]
+    check("scenario", "outer = lazy_stack(lazy_stack(m, m), lazy_stack(m, m)).lock_(); outer.names; inner.names = ['time', 'feat'] for both; outer.names",
+          "stack-dim-name-under-lock:outer-stack", lambda: all_reads(outer, *outer.tensordicts))
+    # the same with *empty* inner stacks (what a mask that keeps nothing returns): there is no member whose setter could invalidate the holder
+    full = LazyStackedTensorDict(*members(None), stack_dim=0)
+    outer = LazyStackedTensorDict(full[torch.zeros(2, dtype=torch.bool)], full[torch.zeros(2, dtype=torch.bool)], stack_dim=0).lock_()
+    outer.names
+    for inner in outer.tensordicts:
+        inner.names = ["time", None]
+    check("scenario", "outer = lazy_stack(empty_stack, empty_stack).lock_(); outer.names; inner.names = ['time', None] for both; outer.names",
+          "stack-dim-name-under-lock:empty-inner", lambda: outer.names)
+
+    # (e4) names erased from above: the setter of a holder walks *down* the tree (`_rename_subtds(None)` -> `_erase_names`)
+    root = TensorDict({"l": LazyStackedTensorDict(*members(), stack_dim=0), "sub": TensorDict({"c": torch.zeros(2, 3)}, [2, 3]), "z": torch.zeros(2, 3)}, [2, 3], names=["t", "feat"]).lock_()
+    nodes = [root, root.get("l"), root.get("sub"), *root.get("l").tensordicts]
+    all_reads(*nodes)
+    root.names = None
+    check("scenario", "root = TensorDict({'l': lazy_stack(m1, m2), 'sub': {...}}, names=['t', 'feat']).lock_(); root['l'].names; root['sub'].detach(); root.names = None; the same reads",
+          "names-erased-from-above", lambda: all_reads(*nodes))
+
+    # (e5) the batch size can be assigned under lock
+    root = TensorDict({"a": torch.zeros(2, 3), "n": TensorDict({"x": torch.zeros(2, 3)}, [2, 3])}, [2, 3]).lock_()
+    L = LazyStackedTensorDict(*members(None), stack_dim=0).lock_()
+    all_reads(root, root.get("n"), L, *L.tensordicts)
+    root.batch_size = [2]
+    L.tensordicts[0].get("n").batch_size = []
+    check("scenario", "td.lock_(); td.flatten_keys(); td.batch_size = [2]; td.flatten_keys()    (also on a nested node of a member of a locked stack)",
+          "batch-size-under-lock", lambda: all_reads(root, root.get("n"), L, *L.tensordicts))
+
+    # (e5m) metadata in the model = a reserved pseudo-leaf of the node: a metadata assignment under lock is a `rebind` of it, so `rebind_preserves`
+    #       (coherence is kept iff the write erases up) is the model statement; real side: the read on the root misses, then hits
+    kinds = []
+    M.CALLBACK = lambda ev: kinds.append("hit" if ev["hit"] else ("miss" if ev["stored"] else "bypass"))
+    root = TensorDict({"a": torch.zeros(2, 3), "n": TensorDict({"x": torch.zeros(2, 3)}, [2, 3])}, [2, 3]).lock_()
+    root._values_list(True, False); root.get("n").names = ["u", "v"]; root._values_list(True, False); root._values_list(True, False)
+    root.get("n").clear_device_(); root._values_list(True, False); root.batch_size = [2]; root._values_list(True, False)
+    M.CALLBACK = cb
+    model = parse_sx(drv.ask("(c06.run (ctor () ((x 100 0) (meta 150 0)) false) (ctor ((n 0)) ((a 101 0) (meta 151 0)) true) (read 1 1 1 0) (rebind 0 meta 200) (read 1 1 1 0) (read 1 1 1 0) "
+                             "(rebind 0 meta 201) (read 1 1 1 0) (rebind 1 meta 202) (read 1 1 1 0))"))
+    run.corr("scenario", "metadata-as-binding", kinds, [model[2][0], model[4][0], model[5][0], model[7][0], model[9][0]])
+
+    # (e7) a *refused* names assignment on a nested lazy stack must leave nothing behind (the stack dim used to stay renamed, unseen by the holders)
+    root = TensorDict({"l": LazyStackedTensorDict(*members(), stack_dim=0), "z": torch.zeros(2, 3)}, [2, 3]).lock_()
+    all_reads(root, root.get("l"))
+    before = list(root.get("l").names)
+    try:
+        root.get("l").names = ["feat", "w"]       # 'feat' is taken by the members: refused
+        refused = False
+    except ValueError:
+        refused = True
+    check("scenario", "root = TensorDict({'l': lazy_stack(m1, m2)}).lock_(); root.detach(); root['l'].names = ['feat', 'w']  (refused: 'feat' is taken); root.detach()",
+          "refused-stack-names-under-lock", lambda: all_reads(root, root.get("l")))
+    if refused and root.get("l")._td_dim_name != before[0]:
+        run.oracle_fail("scenario", {"program": "root['l'].names = ['feat', 'w']  (refused)"}, f"the refused assignment renamed the stack dimension: {before[0]!r} -> {root.get('l')._td_dim_name!r}", "refused-stack-names-under-lock:partial")
+    else:
+        run.oracle_ok("scenario")
+
+    # (e6) the device attribute can be cleared / inferred under lock
+    root = TensorDict({"a": torch.zeros(2, 3), "n": TensorDict({"x": torch.zeros(2, 3)}, [2, 3])}, [2, 3], device="cpu").lock_()
+    r2 = TensorDict({"a": torch.zeros(2, 3), "n": TensorDict({"x": torch.zeros(2, 3)}, [2, 3])}, [2, 3]).lock_()
+    all_reads(root, root.get("n"), r2, r2.get("n"))
+    root.get("n").clear_device_(); r2.auto_device_()
+    check("scenario", "td = TensorDict(..., device='cpu').lock_(); td.detach(); td['n'].clear_device_(); td.detach()    (and auto_device_ on a locked tensordict without device)",
+          "device-attr-under-lock", lambda: all_reads(root, root.get("n"), r2, r2.get("n")))
+
+    # (d2) a memory-mapped (hence locked) tensordict is moved to another directory: every leaf is rebound to the new files
+    td = T({"a": torch.zeros(2), "b": T({"c": torch.ones(2)})}); td.memmap_(str(scratch / "mm3"))
+    mm_reads = lambda: [(t.flatten_keys(), t._values_list(True, True), t._items_list(True, True), t._values_list(), t.detach()) for t in (td, td.get("b"))]
+    mm_reads()
+    td.memmap_(str(scratch / "mm4"), copy_existing=True)
+    td.set_(("b", "c"), torch.full((2,), 7.0)); td.get("a").add_(1)
+    check("scenario", "td.memmap_(dir1); td.flatten_keys(); td._values_list(True, True); td.memmap_(dir2, copy_existing=True); td.set_(('b', 'c'), 7); the same reads",
+          "second-memmap-under-lock", mm_reads)
+    stale_vals = [v.tolist() for v in (td + 0).values(True, True)]
+    fresh_vals = [v.tolist() for v in td.to_tensordict().values(True, True)]
+    if stale_vals != fresh_vals:
+        run.oracle_fail("scenario", {"program": "td.memmap_(dir1); td + 0; td.memmap_(dir2, copy_existing=True); td.set_(('b', 'c'), 7); td + 0"},
+                        f"arithmetic on the moved tensordict reads the old files: {stale_vals} != {fresh_vals}", "second-memmap-under-lock:arith")
+    else:
+        run.oracle_ok("scenario")
+
+    # (h2) KNOWN FINDING: flatten_keys of a locked TensorDict that holds a lazy stack memoises *stacked copies* of the members' leaves
+    root = TensorDict({"l": LazyStackedTensorDict(*members(None), stack_dim=0), "z": torch.zeros(2, 3)}, [2, 3]).lock_()
+    root.flatten_keys()
+    root.set_(("l", "a"), torch.ones(2, 3))
+    check("scenario", "root = TensorDict({'l': lazy_stack(m1, m2)}).lock_(); root.flatten_keys(); root.set_(('l', 'a'), 1); root.flatten_keys()['l.a']",
+          "lazy-copy:flatten_keys", lambda: root.flatten_keys())
+
     # (h) entry access through a locked stack returns a *stacked copy* of the members' leaves: it must never be memoised
     #     (an in-place write through a member would not be seen)
     m1 = T({"x": torch.zeros(2), "n": T({"y": torch.zeros(2)})}); m2 = T({"x": torch.zeros(2), "n": T({"y": torch.zeros(2)})})
@@ -342,6 +443,8 @@ def main():
         thorough = run.tier == "thorough"
         replay(run, drv, scratch)
         scenarios(run, drv, scratch)
+        import c06_fuzz
+        c06_fuzz.run_fuzz(run, scratch, 900 if thorough else 90, 5)
         if not run.replay:
             histories(run, drv, 6000 if thorough else 600, 34 if thorough else 28, scratch)
     finally:
